@@ -18,7 +18,8 @@ DIRS = ["asm", "core", "disasm", "fileio", "simulate", "table", "common", "main"
 # T9: free functions that need loop contracts / per-loop unwind bounds get C
 # linkage so that their CBMC identifier carries no parameter list.
 T9 = {
-    "core/directives_data.cpp": [],
+    "core/directives_data.cpp": ["parse_db", "parse_resb", "parse_align"],
+    "core/directives_data.h": ["parse_db", "parse_resb"],
     "fileio/write_hex.cpp": ["write_hex_line"],
     "fileio/write_srec.cpp": ["write_srec_line"],
     "fileio/write_wdc.cpp": [],
@@ -29,6 +30,10 @@ INT_BITFIELD = re.compile(
     r"^(\s*(?:uint8_t|uint16_t|uint32_t|unsigned int|unsigned|int)\s+\w+)\s*:\s*\d+\s*;", re.M)
 FLEX = re.compile(r"^(?!\s*(?:extern|static)\b)(\s*[A-Za-z_][\w ]*[\s\*]+\w+)\[\];", re.M)
 TILDE = re.compile(r"\(~([A-Za-z_]\w*)\)")
+# T10: the front end evaluates a C-style cast of an array lvalue to another pointer type
+# ("(uint8_t *)token", token a char[]) to an invalid pointer; &(x)[0] is the same value for
+# arrays and pointers alike.
+T10 = re.compile(r"\((uint8_t|int8_t|char|unsigned char|const char|const uint8_t) \*\)([A-Za-z_]\w*)(?=\s*[;,)])")
 T7_FILES = {"asm/mips.cpp", "asm/avr8.cpp", "asm/ps2_ee_vu.cpp", "disasm/super_fx.cpp"}
 T7 = re.compile(r"\b([A-Za-z_]\w*) < ([^|&;(){}]+?) \|\| \1 > ")
 
@@ -100,6 +105,9 @@ def transform(rel, text):
     text, n = count_sub(TILDE, r"(~(\1))", text)
     if n:
         fired["T4"] = n
+    text, n = count_sub(T10, r"(\1 *)&(\2)[0]", text)
+    if n:
+        fired["T10"] = n
     if rel.startswith("simulate/") and rel.endswith(".h"):
         text = transform_sim_header(text, fired)
     if rel in T7_FILES:
